@@ -11,6 +11,7 @@ Every draw rpylib makes while simulating a path goes through one of
     numpy.random.normal          Brownian increments; Merton jump sizes (loc/scale given)
     numpy.random.uniform         Uniform.sample(): state sampler and the coupling's left/right decision
     numpy.random.choice          hidden draw of the inversion sampler when the enumeration is exhausted (pairing.py)
+    random.getrandbits           table method (distribution/variate/table.py)
 
 They are looked up as attributes of the numpy.random module at call time, so replacing the attributes is enough.
 Any other legacy numpy.random function raises ProtocolError (an unforeseen draw is a harness error, never a finding).
@@ -19,6 +20,7 @@ from __future__ import annotations
 
 import collections
 import contextlib
+import itertools
 
 import numpy as np
 
@@ -153,6 +155,13 @@ class ScriptedRNG:
     def seed(self, *a, **k):
         self.log.append(("seed", None))
 
+    def getrandbits(self, k):
+        """random.getrandbits (table method): the next state uniform, as a k-bit integer"""
+        v = self.state_u[self.n_state % len(self.state_u)]
+        self.n_state += 1
+        self.log.append(("getrandbits-state", v))
+        return min(int(v * (1 << k)), (1 << k) - 1)
+
     @staticmethod
     def _forbidden(name):
         def f(*a, **k):
@@ -172,14 +181,19 @@ class ScriptedRNG:
         for name in self.FORBIDDEN:
             if hasattr(npr, name):
                 repl[name] = self._forbidden(name)
+        import random as pyrandom
+
         saved = {k: getattr(npr, k) for k in repl if hasattr(npr, k)}
+        saved_bits = pyrandom.getrandbits
         try:
             for k, v in repl.items():
                 setattr(npr, k, v)
+            pyrandom.getrandbits = self.getrandbits
             yield self
         finally:
             for k, v in saved.items():
                 setattr(npr, k, v)
+            pyrandom.getrandbits = saved_bits
 
 
 # ----------------------------------------------------------------------------------------------------------------------
@@ -289,6 +303,16 @@ SIMS = {
     "coupling-hem-l2": ("coupling-1d", "hem", 2),
     "coupling-copula": ("coupling-copula", None, 1),
     "coupling-copula-l2": ("coupling-copula", None, 2),
+    # other state samplers (4th entry: rpylib.distribution.sampling.SamplingMethod name; INVERSION when absent)
+    "chain-hem-bst": ("chain", "hem", 0, "BINARYSEARCHTREE"),
+    "chain-hem-alias": ("chain", "hem", 0, "ALIAS"),
+    "coupling-hem-bst": ("coupling-1d", "hem", 1, "BINARYSEARCHTREE"),
+    "coupling-hem-alias": ("coupling-1d", "hem", 1, "ALIAS"),
+    "coupling-hem-table": ("coupling-1d", "hem", 1, "TABLE"),
+    "coupling-hem-huffman": ("coupling-1d", "hem", 1, "HUFFMANNTREE"),
+    "coupling-hem-bsta1d": ("coupling-1d", "hem", 1, "BINARYSEARCHTREEADAPTED1D"),
+    "copula-chain-bsta": ("copula-chain", None, 0, "BINARYSEARCHTREEADAPTED"),
+    "coupling-copula-bsta": ("coupling-copula", None, 1, "BINARYSEARCHTREEADAPTED"),
 }
 
 
@@ -304,7 +328,8 @@ class Driver:
 
     def __init__(self, sim: str, product_name: str, mode: str, eps):
         self.sim, self.product_name, self.mode, self.eps = sim, product_name, mode, eps
-        self.cls, self.model_name, self.levels = SIMS[sim]
+        self.cls, self.model_name, self.levels = SIMS[sim][:3]
+        self.method_name = SIMS[sim][3] if len(SIMS[sim]) > 3 else "INVERSION"
         self.rng = ScriptedRNG()
         self.rec = Recorder()
         self.product = make_product(product_name, stochastic_dates=(mode != "fixed"))
@@ -321,6 +346,7 @@ class Driver:
         from rpylib.grid.spatial import CTMCUniformGrid
 
         cls = self.cls
+        method = getattr(SamplingMethod, self.method_name)
         if cls == "levy":
             from rpylib.process.levyprocess import LevyProcess
 
@@ -331,19 +357,19 @@ class Driver:
             if cls == "chain":
                 from rpylib.process.markovchain.markovchain import MarkovChainProcess
 
-                return MarkovChainProcess(model, SamplingMethod.INVERSION, grid)
+                return MarkovChainProcess(model, method, grid)
             from rpylib.process.coupling.couplingmarkovchain import CouplingMarkovChain
 
-            return CouplingMarkovChain(model, SamplingMethod.INVERSION, grid)
+            return CouplingMarkovChain(model, method, grid)
         model = A.make_copula_model(COPULA)
         grid = CTMCUniformGrid.create_from_fixed_nb_of_points(h=0.06, nb_of_points=10, dimension=2)
         if cls == "copula-chain":
             from rpylib.process.markovchain.markovchainlevycopula import MarkovChainLevyCopula
 
-            return MarkovChainLevyCopula(model, grid, SamplingMethod.INVERSION)
+            return MarkovChainLevyCopula(model, grid, method)
         from rpylib.process.coupling.couplinglevycopula import CouplingProcessLevyCopula
 
-        return CouplingProcessLevyCopula(model, grid, SamplingMethod.INVERSION)
+        return CouplingProcessLevyCopula(model, grid, method)
 
     @property
     def coupled(self):
@@ -399,14 +425,25 @@ class Driver:
             return
         sampler = self.proc.sampling
         found = {}
-        if hasattr(sampler, "sample_with_u"):
+        saved = (self.rng.state_u, self.rng.n_state, self.rng.context)
+        try:
+            # probe the real sampler through its public sample() with one scripted uniform at a time (works for every
+            # sampling method; the table method reads random.getrandbits, scripted from the same list)
             for k in range(400):
                 u = (k + 0.5) / 400.0
                 if u > 0.985:
                     break
-                s = tuple(int(v) for v in np.atleast_1d(sampler.sample_with_u(u)))
+                self.rng.state_u, self.rng.context = [u], "state"
+                out = sampler.sample(size=1)
+                s = tuple(int(v) for v in np.atleast_1d(out[0]))
                 found.setdefault(s, []).append(u)
-        cand = sorted(found, key=lambda s: (all(x % 2 == 0 for x in s), sum(abs(x) for x in s), s))
+        finally:
+            self.rng.state_u, self.rng.n_state, self.rng.context = saved
+            self.rec.reset()
+        by_size = sorted(found, key=lambda s: (sum(abs(x) for x in s), s))
+        c_odd = [s for s in by_size if any(x % 2 for x in s)]
+        c_even = [s for s in by_size if not any(x % 2 for x in s)]
+        cand = [s for pair in itertools.zip_longest(c_odd, c_even) for s in pair if s is not None]
         chosen, sums = [], {tuple([0] * self.dim)}
         rest = []
         for s in cand:
